@@ -40,6 +40,7 @@ def run(ctx):
         facts = ctx.xfacts(cfg)
         r1(ctx, facts)
         r2(ctx, facts)
+        r2_generic(ctx, facts)
         r3(ctx, facts)
         r4(ctx, facts)
         from ..alloc import AllocModel
@@ -103,7 +104,10 @@ def purgers(facts):
         dcs = [bb for bb, t in b.calls() if t["callee"].get("path") == DC]
         if len(dcs) == 1 and b.must_pass(0, dcs)[0]:
             ao = b.arg_origin(dcs[0], 1)
-            if ao[0] == "param" and not ao[2] and b.trait_item not in ("world::world_ext::WorldExt::delete_entities", "world::world_ext::WorldExt::maintain"):
+            # only a *private* helper is a wrapper (its callers are all in the crate and are examined in its place); a public function or a
+            # trait method that purges its own parameter is an entry point of its own and must justify the purge itself (R2, generic part)
+            private = not b.trait_item and (b.vis or "").startswith("Restricted")
+            if ao[0] == "param" and not ao[2] and private:
                 out[b.path] = ao[1] - 1
     _PURGERS[id(facts)] = out
     return out
@@ -194,6 +198,66 @@ def r2(ctx, facts):
                    "" if ok else "path from merge() to return bypasses delete_components without testing the merge result: %s" % b.fmt_path(wit))
 
 
+_KILLERS = {}
+
+
+def killers(facts):
+    """methods of the allocator that make entities die (role: an `impl Allocator` body with a death site - the alive bit cleared or the
+    generation slot killed), with their return type: path -> type.  `kill` (Result, reports a failure position) and `merge` (the list of the
+    dead) are today's two; a new killing method is discovered the same way."""
+    if id(facts) in _KILLERS:
+        return _KILLERS[id(facts)]
+    from ..alloc import AllocModel
+    model = AllocModel(facts)
+    out = {}
+    for b in model.bodies:
+        if model.death_sites(b) or model.gen_slot_calls(b, model.die):
+            out[b.path] = b.ltype.get(0, "")
+    _KILLERS[id(facts)] = out
+    return out
+
+
+def r2_generic(ctx, facts):
+    """every other body that purges (a new batch / lenient / retain-style deletion API): the slice handed to the purge is justified by the
+    allocator - it derives from a merge() result, or the site lies on the Ok arm of a kill(x) and is handed that very x, or on its Err arm
+    and depends on x and on the reported failure position.  Anything else purges components of entities the allocator did not just kill."""
+    pg = purgers(facts)
+    for b in facts.bodies:
+        if b.trait_item in (DC, "world::world_ext::WorldExt::delete_entities", "world::world_ext::WorldExt::maintain") or b.path in pg:
+            continue
+        sites = [(bb, t) for bb, t in b.real_calls() if dc_arg(facts, t) is not None]
+        if not sites:
+            continue
+        kp = killers(facts)
+        kills = [bb for bb, t in b.calls() if (t["callee"].get("resolved") or t["callee"].get("path")) in kp and "Result<" in kp[(t["callee"].get("resolved") or t["callee"].get("path"))]]
+        merges = [bb for bb, t in b.calls() if (t["callee"].get("resolved") or t["callee"].get("path")) in kp and "Result<" not in kp[(t["callee"].get("resolved") or t["callee"].get("path"))]
+                  and kp[(t["callee"].get("resolved") or t["callee"].get("path"))] != "()"]
+        for n, (bb, t) in enumerate(sites):
+            ao = b.arg_origin(bb, dc_arg(facts, t))
+            ok, why = False, "the purged slice is justified by no result of an allocator method that kills (kill / merge or a new sibling) in this body"
+            if any(b.depends_on_call(ao, m) for m in merges) and ao[0] != "param":
+                ok, why = True, ""
+            for k in kills if not ok else []:
+                batch = b.arg_origin(k, 1)
+                for ve in b.variant_edges(lambda so: so == ("call", k, ())):
+                    oke, erre = ve["edges"].get("Ok"), ve["edges"].get("Err")
+                    on_ok = oke is not None and bb not in b.reachable(0, removed={oke})
+                    on_err = erre is not None and bb not in b.reachable(0, removed={erre})
+                    if on_ok:
+                        if ao == batch:
+                            ok, why = True, ""
+                        else:
+                            why = ("after kill(%r) succeeded the purge is handed a different slice (%r): handles that kill() rejected or never saw lose "
+                                   "their index's components - a live entity that reuses such an index is stripped" % (batch, ao))
+                    elif on_err:
+                        roots = b.roots(ao)
+                        if b.depends_on_call(ao, k, ("as Err",)) and any(r[:2] == batch[:2] for r in roots):
+                            ok, why = True, ""
+                        else:
+                            why = "on the failing path the purged slice does not depend on both the batch and the failure position"
+            ctx.ob("C05-R2", "%s purge #%d is justified by the allocator" % (b.path, n), ok, b.loc(bb), why)
+
+
 def r3(ctx, facts):
     dc = [b for b in facts.bodies if b.trait_item == "world::world_ext::WorldExt::delete_components"]
     ctx.anchor("C05-R3", "WorldExt::delete_components", dc)
@@ -266,7 +330,12 @@ def r4(ctx, facts):
         if w in pg:
             c1.discard(w)
             c1 |= {cb.path for cb, bb in callers.get(w, [])}
-    bad = [c for c in c1 if not any(x.trait_item in allowed for x in facts.by_path[c])]
+    # further deletion entry points are held to the generic part of R2 (every purge site justified by a kill()/merge() result), so they
+    # are not a who-may-call violation by themselves; what stays forbidden is a caller that is no deletion path at all (no kill / merge)
+    def deletes(c):
+        kp = killers(facts)
+        return any((t["callee"].get("resolved") or t["callee"].get("path")) in kp for x in facts.by_path[c] for _, t in x.calls())
+    bad = [c for c in c1 if not any(x.trait_item in allowed for x in facts.by_path[c]) and not deletes(c)]
     ctx.ob("C05-R4", "callers of delete_components", not bad and bool(c1), "", "" if not bad else "unexpected caller(s) of the purge: %s" % bad)
     c2 = who(lambda b: b.trait_item == "storage::AnyStorage::drop")
     # the virtual call site itself
